@@ -675,6 +675,239 @@ fn crash_child(args: &[String]) -> i32 {
 	3
 }
 
+// ---------------------------------------------------------------------------------------------
+// concurrent: readers / iterator / writer on other threads with a map resize in flight, every
+// schedule up to the preemption bound under the controlled scheduler (src/sched.rs)
+
+#[derive(Clone, Debug)]
+struct CObs {
+	thread: String,
+	what: String,
+	ok: bool,
+}
+
+fn conc_execute(base: &Path, sc: &uni::Scratch, choices: &[usize], fill: u32) -> (crate::sched::Verdict, Vec<crate::sched::Step>, Vec<(String, String)>, Vec<CObs>, bool) {
+	use std::sync::{Arc, Mutex};
+	let d = sc.fresh("c");
+	uni::copy_dir(base, &d);
+	let store = Arc::new(open_store(&d));
+	let log: Arc<Mutex<Vec<CObs>>> = Arc::new(Mutex::new(vec![]));
+	let names = ["reader-iter", "writer", "reader-get"];
+	let sched = crate::sched::Scheduler::new(&names, choices.to_vec());
+	let mut bodies: Vec<Box<dyn FnOnce() + Send>> = vec![];
+	{
+		// A: holds an iterator (read view) and makes nested reads while it is open
+		let store = store.clone();
+		let log = log.clone();
+		bodies.push(Box::new(move || {
+			let push = |what: String, ok: bool| log.lock().unwrap().push(CObs { thread: "reader-iter".into(), what, ok });
+			match store.iter(None, |k, v| Ok((k.to_vec(), v.len()))) {
+				Ok(it) => {
+					grin_util::verif::sched_point("iterator-open");
+					let e1 = store.exists(None, &0u32.to_be_bytes());
+					push(format!("nested exists -> {:?}", e1.as_ref().map_err(|e| format!("{:?}", e))), matches!(e1, Ok(true)));
+					let g1 = store.get_ser::<Val>(None, &1u32.to_be_bytes(), None);
+					push(format!("nested get_ser -> {}", g1.is_ok()), matches!(g1, Ok(Some(_))));
+					let e2 = store.exists(None, &2u32.to_be_bytes());
+					push(format!("nested exists (2nd) -> {:?}", e2.as_ref().map_err(|e| format!("{:?}", e))), matches!(e2, Ok(true)));
+					let keys: Vec<Vec<u8>> = it.filter_map(|x| x.ok()).map(|x| x.0).collect();
+					// the snapshot: all fill keys, and the pair entirely or not at all
+					let fills = keys.iter().filter(|k| k.len() == 4).count() as u32;
+					let pa = keys.iter().any(|k| k.as_slice() == b"pair-a");
+					let pb = keys.iter().any(|k| k.as_slice() == b"pair-b");
+					push(format!("iterator drained: {} fill keys, pair-a {} pair-b {}", fills, pa, pb), fills == fill && pa == pb);
+				}
+				Err(e) => push(format!("iter failed {:?}", e), false),
+			}
+		}));
+	}
+	{
+		// B: a batch that needs the map enlarged, writing a pair that must appear together
+		let store = store.clone();
+		let log = log.clone();
+		bodies.push(Box::new(move || {
+			let push = |what: String, ok: bool| log.lock().unwrap().push(CObs { thread: "writer".into(), what, ok });
+			match store.batch() {
+				Ok(mut b) => {
+					let r1 = b.put_ser(None, b"pair-a", &big(200));
+					let r2 = b.put_ser(None, b"pair-b", &val(5));
+					let r3 = b.commit();
+					push(format!("batch put/put/commit -> {:?} {:?} {:?}", r1.as_ref().map_err(|e| format!("{:?}", e)), r2.as_ref().map_err(|e| format!("{:?}", e)), r3.as_ref().map_err(|e| format!("{:?}", e))), r1.is_ok() && r2.is_ok() && r3.is_ok());
+				}
+				Err(e) => push(format!("batch failed {:?}", e), false),
+			}
+		}));
+	}
+	{
+		// C: plain reads and a short-lived iterator on a third thread
+		let store = store.clone();
+		let log = log.clone();
+		bodies.push(Box::new(move || {
+			let push = |what: String, ok: bool| log.lock().unwrap().push(CObs { thread: "reader-get".into(), what, ok });
+			let g = store.get_ser::<Val>(None, &3u32.to_be_bytes(), None);
+			push(format!("get_ser -> {}", g.is_ok()), matches!(g, Ok(Some(_))));
+			match store.iter(None, |k, _| Ok(k.to_vec())) {
+				Ok(it) => {
+					let keys: Vec<Vec<u8>> = it.filter_map(|x| x.ok()).collect();
+					let pa = keys.iter().any(|k| k.as_slice() == b"pair-a");
+					let pb = keys.iter().any(|k| k.as_slice() == b"pair-b");
+					push(format!("iterator: pair-a {} pair-b {}", pa, pb), pa == pb);
+				}
+				Err(e) => push(format!("iter failed {:?}", e), false),
+			}
+		}));
+	}
+	let (verdict, trace, panics) = sched.run(bodies);
+	let obs = log.lock().unwrap().clone();
+	let mut final_ok = true;
+	if matches!(verdict, crate::sched::Verdict::Completed) {
+		// afterwards: nothing committed is lost
+		for i in 0..fill {
+			if !matches!(store.get_ser::<Val>(None, &i.to_be_bytes(), None), Ok(Some(_))) {
+				final_ok = false;
+			}
+		}
+		let a = store.get_ser::<Val>(None, b"pair-a", None).ok().flatten().is_some();
+		let b = store.get_ser::<Val>(None, b"pair-b", None).ok().flatten().is_some();
+		if !(a && b) {
+			final_ok = false;
+		}
+		drop(store);
+		let _ = std::fs::remove_dir_all(&d);
+	}
+	(verdict, trace, panics, obs, final_ok)
+}
+
+fn fill_store(dir: &Path, n: u32) {
+	let store = open_store(dir);
+	for i in 0..n {
+		let mut b = store.batch().unwrap();
+		b.put_ser(None, &i.to_be_bytes(), &big(i)).unwrap();
+		b.commit().unwrap();
+	}
+}
+
+fn concurrent(tier: Tier, shard: usize, n: usize) -> Report {
+	uni::init_thread();
+	let mut rep = Report::new();
+	let sc = uni::Scratch::new("c18s");
+	let bound = tier.pick(1, 2);
+	rep.extra.insert("max_preemption_bound_completed".into(), json!(bound));
+	// base: a store filled just past the 90 % threshold of its current map, so that a batch()
+	// opened while another thread holds a read view must defer the resize to the waiter thread.
+	// Calibrated: the smallest fill for which the forcing schedule (iterator thread up to the
+	// point where its view is open, then the writer) starts the waiter thread.
+	let mut fill = 0u32;
+	let mut base = sc.fresh("base");
+	for cand in 10..80u32 {
+		let b0 = sc.fresh("cal");
+		fill_store(&b0, cand);
+		let (v0, t0, _, _, _) = conc_execute(&b0, &sc, &[], cand);
+		let mut dead = !matches!(v0, crate::sched::Verdict::Completed);
+		let mut hit = false;
+		if !dead {
+			if let Some(at) = t0.iter().position(|s| s.what == "reader-iter:point(iterator-open)") {
+				// decisions up to and including the one that lets the iterator thread reach the point,
+				// then the writer instead of the iterator thread
+				let mut pre: Vec<usize> = t0[..=at].iter().map(|s| s.chosen).collect();
+				pre.push(1);
+				let (v, trace, _, _, _) = conc_execute(&b0, &sc, &pre, cand);
+				dead = !matches!(v, crate::sched::Verdict::Completed);
+				hit = trace.iter().any(|s| s.what.starts_with("lmdb-resize"));
+			}
+		}
+		if hit || dead {
+			fill = cand;
+			base = b0;
+			break;
+		}
+		let _ = std::fs::remove_dir_all(&b0);
+	}
+	if fill == 0 {
+		eprintln!("MACHINERY: C18 concurrent: no fill level makes the forcing schedule defer a resize");
+		std::process::exit(2);
+	}
+	rep.extra.insert("fill_values_48KiB".into(), json!(fill));
+	fn preempt(trace: &[crate::sched::Step], upto: usize) -> usize {
+		trace[..upto].iter().filter(|s| s.running.map(|r| s.enabled.contains(&r) && s.enabled[s.chosen] != r).unwrap_or(false)).count()
+	}
+	let mut stack: Vec<Vec<usize>> = vec![vec![]];
+	let mut top = 0usize;
+	let cap = tier.pick(3_000u64, 60_000);
+	let mut with_resize = 0u64;
+	while let Some(prefix) = stack.pop() {
+		if rep.evaluations >= cap {
+			rep.capped = Some(format!("execution cap {}", cap));
+			break;
+		}
+		let (verdict, trace, panics, obs, final_ok) = conc_execute(&base, &sc, &prefix, fill);
+		rep.evaluations += 1;
+		rep.distinct += 1;
+		rep.states += 1;
+		rep.transitions += trace.len() as u64;
+		let choices: Vec<usize> = trace.iter().map(|s| s.chosen).collect();
+		let case = json!({"choices": choices, "schedule": trace.iter().map(|s| s.what.clone()).collect::<Vec<_>>(), "observations": obs.iter().map(|o| format!("{}: {}", o.thread, o.what)).collect::<Vec<_>>()});
+		let resized = trace.iter().any(|s| s.what.starts_with("lmdb-resize"));
+		if resized {
+			with_resize += 1;
+		}
+		match &verdict {
+			crate::sched::Verdict::Completed => {}
+			crate::sched::Verdict::Deadlock(m) => {
+				rep.violation("concurrent:deadlock", format!("deadlock: {}", m), case.clone());
+				break;
+			}
+			crate::sched::Verdict::Livelock(m) => {
+				rep.violation("concurrent:livelock", format!("threads wait for each other forever: {}", m), case.clone());
+				break;
+			}
+			crate::sched::Verdict::Divergence(m) | crate::sched::Verdict::Stuck(m) => {
+				eprintln!("MACHINERY: C18 concurrent: {}", m);
+				std::process::exit(2);
+			}
+		}
+		for (t, m) in &panics {
+			rep.violation(format!("concurrent:panic:{}", t), m.clone(), case.clone());
+		}
+		for o in &obs {
+			if !o.ok {
+				rep.violation(format!("concurrent:{}:{}", o.thread, o.what.split(" ->").next().unwrap_or("").split(':').next().unwrap_or("")), format!("{}: {}", o.thread, o.what), case.clone());
+			}
+		}
+		if !final_ok {
+			rep.violation("concurrent:committed-write-lost", "after all threads finished a committed value (or half of the pair) is missing".to_string(), case.clone());
+		}
+		rep.outcome(&format!("completed:resize-{}", if resized { "deferred-to-waiter-thread" } else { "immediate-or-not-needed" }));
+		if rep.samples.len() < 2 && resized {
+			rep.sample(case.clone());
+		}
+		for i in prefix.len()..trace.len() {
+			let p = &trace[i];
+			let cost = preempt(&trace, i);
+			for alt in 0..p.enabled.len() {
+				if alt == p.chosen {
+					continue;
+				}
+				let extra = p.running.map(|r| (p.enabled.contains(&r) && p.enabled[alt] != r) as usize).unwrap_or(0);
+				if cost + extra > bound {
+					continue;
+				}
+				if prefix.is_empty() {
+					top += 1;
+					if (top - 1) % n != shard {
+						continue;
+					}
+				}
+				let mut next = choices[..i].to_vec();
+				next.push(alt);
+				stack.push(next);
+			}
+		}
+	}
+	rep.extra.insert("schedules_with_deferred_resize".into(), json!(with_resize));
+	rep
+}
+
 impl Engine for C18 {
 	fn id(&self) -> &'static str {
 		"C18"
@@ -682,22 +915,23 @@ impl Engine for C18 {
 	fn meta(&self, _tier: Tier) -> Meta {
 		Meta {
 			level: "model_checking",
-			rule: "(seq) explicit-state exploration: every sequence up to the depth bound over {batch, child (nesting <= 2), put (6 key/value/keyspace combinations over two key spaces), delete (3), commit, drop, reopen} executed on a real Store; after EVERY operation every key is read inside the innermost open level (get_ser, exists, iter) and through the Store (outside view) and compared with a nested-transaction map model (stack of overlays); memoised on (model state, remaining depth). (growth) every well-formed sequence of the length bound over {write 48 KiB value, write a pair, open iterator, drain iterator, reopen} on a store pre-filled to 65 % of its 1 MiB map, so that one or two automatic resizes happen with and without an open read view: no operation may fail, every committed value reads back byte-exact, an iterator sees exactly its snapshot. (crash) a kill at every crash point around the commit of a flat and of a nested batch writing a pair across two key spaces: after reopen the pair is visible entirely or not at all, entirely once commit returned, and earlier commits survive.",
+			rule: "(seq) explicit-state exploration: every sequence up to the depth bound over {batch, child (nesting <= 2), put (6 key/value/keyspace combinations over two key spaces), delete (3), commit, drop, reopen} executed on a real Store; after EVERY operation every key is read inside the innermost open level (get_ser, exists, iter) and through the Store (outside view) and compared with a nested-transaction map model (stack of overlays); memoised on (model state, remaining depth). (growth) every well-formed sequence of the length bound over {write 48 KiB value, write a pair, open iterator, drain iterator, reopen} on a store pre-filled to 65 % of its 1 MiB map, so that one or two automatic resizes happen with and without an open read view: no operation may fail, every committed value reads back byte-exact, an iterator sees exactly its snapshot. (crash) a kill at every crash point around the commit of a flat and of a nested batch writing a pair across two key spaces: after reopen the pair is visible entirely or not at all, entirely once commit returned, and earlier commits survive. (concurrent) under the controlled scheduler, every schedule up to the preemption bound of {thread A: open iterator, three nested reads, drain; thread B: a batch that needs the map enlarged and writes a pair; thread C: get + iterator} on a store filled just past the resize threshold, the resize waiter thread being a scheduled participant: no deadlock or livelock, every operation Ok, iterators see all fill keys and the pair entirely or not at all, nothing committed is lost.",
 			assumptions: vec![
 				"batches stay within the headroom the resize rule guarantees (<= 10 % of the map per batch)".into(),
-				"concurrent readers/writers during a resize are covered by the C17 scheduler harness when claimed; this check is single-threaded".into(),
+				"(concurrent) preemption bound 1 (quick) / 2 (thorough); scheduling points are util::RwLock operations (incl. the environment map), the LMDB writer lock, the two polling loops and thread start/exit of the resize waiter".into(),
 			],
 			exhaustive: true,
 		}
 	}
 	fn parts(&self, _tier: Tier) -> Vec<(&'static str, usize)> {
-		vec![("seq", 16), ("growth", 16), ("crash", 1)]
+		vec![("seq", 12), ("growth", 8), ("crash", 1), ("concurrent", 12)]
 	}
 	fn run_part(&self, part: &str, tier: Tier, shard: usize, n: usize) -> Report {
 		match part {
 			"seq" => seq(tier, shard, n),
 			"growth" => growth(tier, shard, n),
 			"crash" => crash(tier),
+			"concurrent" => concurrent(tier, shard, n),
 			_ => panic!("unknown part"),
 		}
 	}
